@@ -46,6 +46,9 @@ _R = {             # the real functions
     "termios.tcsendbreak": _termios.tcsendbreak,
     "time.perf_counter": _time.perf_counter, "time.time_ns": _time.time_ns, "time.monotonic_ns": _time.monotonic_ns,
     "select.poll": getattr(_select, "poll", None), "select.epoll": getattr(_select, "epoll", None),
+    "os.pipe2": getattr(_os, "pipe2", None), "os.dup": _os.dup, "os.dup2": _os.dup2,
+    "termios.tcgetwinsize": getattr(_termios, "tcgetwinsize", None),
+    "os.eventfd": getattr(_os, "eventfd", None),
 }
 
 
@@ -83,6 +86,35 @@ def _os_pipe():
     if _K is not None:
         return _K.pipe()
     return _R["os.pipe"]()
+
+
+def _os_pipe2(flags):
+    if _K is not None:
+        r, w = _K.pipe()
+        if flags & _os.O_NONBLOCK:
+            _K.set_blocking(r, False)
+            _K.set_blocking(w, False)
+        return r, w
+    return _R["os.pipe2"](flags)
+
+
+def _not_modelled(name):
+    real = _R[name]
+
+    def f(*a, **kw):
+        if _K is not None and (not a or not isinstance(a[0], int) or a[0] in _K.fds or name == "os.eventfd"):
+            from .world import HarnessError
+            raise HarnessError("%s is not modelled by the simulated kernel" % name)
+        return real(*a, **kw)
+    return f
+
+
+def _tcgetwinsize(fd):
+    if _K is not None and _fdof(fd) in _K.fds:
+        _K._tty_of(fd)
+        t = _W.term
+        return (t.h, t.w)
+    return _R["termios.tcgetwinsize"](fd)
 
 
 def _os_set_blocking(fd, blocking):
@@ -149,9 +181,12 @@ def _time_time():
     return _R["time.time"]()
 
 
+_MONO_ORIGIN = 54321.0      # the monotonic clocks do not share the epoch of time.time()
+
+
 def _time_monotonic():
     if _W is not None:
-        return _W.time()
+        return _W.time() - _W.t0 + _MONO_ORIGIN
     return _R["time.monotonic"]()
 
 
@@ -181,22 +216,34 @@ def _os_get_terminal_size(fd=1):
     return _R["os.get_terminal_size"](fd)
 
 
+def _fill(arg, data, mutate_flag):
+    """ioctl's out-parameter convention: any writable buffer (bytearray, array.array, memoryview) is filled"""
+    if not mutate_flag or isinstance(arg, (int, bytes, str)):
+        return False
+    try:
+        mv = memoryview(arg).cast("B")
+    except TypeError:
+        return False
+    if mv.readonly:
+        return False
+    mv[:len(data)] = data
+    return True
+
+
 def _fcntl_ioctl(fd, request, arg=0, mutate_flag=True):
     if _K is not None and _fdof(fd) in _K.fds:
         import struct
         if request == _termios.TIOCGWINSZ:
             t = _W.term
             data = struct.pack("HHHH", t.h, t.w, 0, 0)
-            if isinstance(arg, (bytearray,)) and mutate_flag:
-                arg[:len(data)] = data
+            if _fill(arg, data, mutate_flag):
                 return 0
             return data
         if request == getattr(_termios, "FIONREAD", -1):
             o = _K.fds[_fdof(fd)]
             n = len(o.inq) if o.kind == "tty" else len(o.pipe.buf)
             data = struct.pack("i", n)
-            if isinstance(arg, bytearray) and mutate_flag:
-                arg[:len(data)] = data
+            if _fill(arg, data, mutate_flag):
                 return 0
             return data
         from .world import HarnessError
@@ -227,13 +274,13 @@ def _time_ns():
 
 def _monotonic_ns():
     if _W is not None:
-        return int(_W.time() * 1e9)
+        return int((_W.time() - _W.t0 + _MONO_ORIGIN) * 1e9)
     return _R["time.monotonic_ns"]()
 
 
 def _perf_counter():
     if _W is not None:
-        return _W.time()
+        return _W.time() - _W.t0 + 99.0
     return _R["time.perf_counter"]()
 
 
@@ -272,6 +319,13 @@ def _install_global():
         setattr(_termios, _n, _tc_noop("termios." + _n))
         setattr(_tty, _n, getattr(_termios, _n))
     _time.perf_counter, _time.time_ns, _time.monotonic_ns = _perf_counter, _time_ns, _monotonic_ns
+    if _R["os.pipe2"] is not None:
+        _os.pipe2 = _os_pipe2
+    _os.dup, _os.dup2 = _not_modelled("os.dup"), _not_modelled("os.dup2")
+    if _R["os.eventfd"] is not None:
+        _os.eventfd = _not_modelled("os.eventfd")
+    if _R["termios.tcgetwinsize"] is not None:
+        _termios.tcgetwinsize = _tty.tcgetwinsize = _tcgetwinsize
     if _R["select.poll"] is not None:
         _select.poll = _unsupported_poller("select.poll")
     if _R["select.epoll"] is not None:
@@ -343,11 +397,12 @@ def install():
     """kept for callers: everything is installed at import"""
 
 
-def bind(world, kernel, encoding="utf-8", read_size=None):
-    """Make `world` the target of every seam call (one run at a time per process)."""
+def bind(world, kernel, encoding="utf-8", read_size=None, locale_name=None):
+    """Make `world` the target of every seam call (one run at a time per process).  locale_name: the
+    spelling locale.getpreferredencoding() answers with (real locales say 'UTF-8', 'ANSI_X3.4-1968', ...)"""
     global _W, _K
     _W, _K = world, kernel
-    _encoding[0] = encoding
+    _encoding[0] = locale_name or encoding
     if _REPO_READ_SIZE is not None:
         # the read-size knob (only values the module's own assert allows); absent -> knob not applied
         curtsies.input.READ_SIZE = read_size if read_size is not None else _REPO_READ_SIZE
